@@ -29,12 +29,20 @@
     `C09_answered_iff_logged` (the first round leaves a signal pending iff its segment records such an
     entry), `C09_lone_or_many` (empty / `allExcept x` / `all` iff nobody / only `x` / two distinct
     machines signalled), and the property in log terms only: `C09_call_delivers_log`.
+  * Machines that have not ended (`Proofs/SigLive.lean`): `liveSigOf` counts only deliveries to a
+    machine not in END, which is the monitor's `C09.deliveries` (`C09_live_eq_deliveries`).
+    `C09_round_delivers_live` / `C09_call_delivers_live`: a machine that has not ended when the
+    delivery round starts receives its Signal while not ended, an ended machine receives none;
+    `C09_live_at_end`: not ended at the end of the call implies not ended when the round started;
+    `C09_call_deliveries`: exactly the numbers `C09.checkCall` demands of a machine that is live
+    at the end of the call.
   The implementation is tied to this by the correspondence of the full internal log (tag L) and by
   the monitor `C09.monitor` on the implementation's traces.
 -/
 import MbVerif.Proofs.SigCount
 import MbVerif.Proofs.SigDeliver
 import MbVerif.Proofs.SigSlot
+import MbVerif.Proofs.SigLive
 import MbVerif.Props.C01
 import MbVerif.Proofs.C04
 
@@ -208,9 +216,69 @@ theorem C09_call_delivers_log (es : List TEvent) (t : Int) (s : Fw σ) (j : Nat)
   · have : (afterFirst ρ (eventsDone ρ es t s) (some x)).signalPending.isSome = true := a2.mpr hl
     simp [hl, this]
 
+/-! ### machines that have not ended -/
+
+/-- the live count of a log segment is the monitor's count of deliveries -/
+theorem C09_live_eq_deliveries (j : Nat) (l : List LogEntry) : wsum (μLive j) l = deliveries l j :=
+  wsum_live_eq_deliveries j l
+
+/-- The delivery round, counting only Signals delivered to a machine that has not ended: a machine
+    that has not ended when the round starts receives its Signal while not ended. -/
+theorem C09_round_delivers_live (s : Fw σ) (j : Nat) (hlen : s.rt.length = s.machines.length) (hj : j < s.rt.length) :
+    (s.signalPending = none → liveSigOf j (signalRound ρ s) = liveSigOf j s) ∧
+    (s.signalPending = some .all →
+      liveSigOf j (signalRound ρ s) = liveSigOf j s + (if notEnded s j = true then 1 else 0)) ∧
+    (∀ x, s.signalPending = some (.allExcept x) →
+      (j ≠ x → liveSigOf j (signalRound ρ s) = liveSigOf j s + (if notEnded s j = true then 1 else 0)) ∧
+      (j = x → liveSigOf j (signalRound ρ s) =
+        liveSigOf j s +
+          (if (afterFirst ρ s (some x)).signalPending.isSome = true ∧ notEnded s j = true then 1 else 0))) :=
+  round_delivers_live ρ s j ⟨hj, hlen ▸ hj⟩
+
+theorem C09_call_delivers_live (es : List TEvent) (t : Int) (s : Fw σ) (j : Nat)
+    (hlen : s.rt.length = s.machines.length) (hj : j < s.rt.length) :
+    ((eventsDone ρ es t s).signalPending = none → liveSigOf j (triggerEvents ρ es t s) = liveSigOf j s) ∧
+    ((eventsDone ρ es t s).signalPending = some .all →
+      liveSigOf j (triggerEvents ρ es t s) =
+        liveSigOf j s + (if notEnded (eventsDone ρ es t s) j = true then 1 else 0)) ∧
+    (∀ x, (eventsDone ρ es t s).signalPending = some (.allExcept x) →
+      (j ≠ x → liveSigOf j (triggerEvents ρ es t s) =
+        liveSigOf j s + (if notEnded (eventsDone ρ es t s) j = true then 1 else 0)) ∧
+      (j = x → liveSigOf j (triggerEvents ρ es t s) =
+        liveSigOf j s +
+          (if (afterFirst ρ (eventsDone ρ es t s) (some x)).signalPending.isSome = true ∧
+              notEnded (eventsDone ρ es t s) j = true then 1 else 0))) :=
+  call_delivers_live ρ es t s j ⟨hj, hlen ▸ hj⟩
+
+/-- a machine that has not ended when the call returns had not ended when the delivery round began -/
+theorem C09_live_at_end (es : List TEvent) (t : Int) (s : Fw σ) (j : Nat) (hj : j < s.rt.length)
+    (h : notEnded (triggerEvents ρ es t s) j = true) : notEnded (eventsDone ρ es t s) j = true :=
+  live_at_end ρ es t s j hj h
+
+/-- What the monitor `C09.checkCall` demands of a machine `j` that is live at the end of the call, on
+    the call's log segment `l` (with the monitor's own `deliveries`). -/
+theorem C09_call_deliveries (es : List TEvent) (t : Int) (s : Fw σ) (j : Nat)
+    (hlen : s.rt.length = s.machines.length) (hj : j < s.rt.length)
+    (hlive : notEnded (triggerEvents ρ es t s) j = true) :
+    ∃ l, (triggerEvents ρ es t s).log = l ++ s.log ∧
+      ((eventsDone ρ es t s).signalPending = none → deliveries l j = 0) ∧
+      ((eventsDone ρ es t s).signalPending = some .all → deliveries l j = 1) ∧
+      (∀ x, (eventsDone ρ es t s).signalPending = some (.allExcept x) →
+        (j ≠ x → deliveries l j = 1) ∧
+        (j = x → deliveries l j =
+          if (afterFirst ρ (eventsDone ρ es t s) (some x)).signalPending.isSome = true then 1 else 0)) :=
+  call_deliveries ρ es t s j ⟨hj, hlen ▸ hj⟩ hlive
+
 /-- Non-vacuity: machine 2 signalling three times keeps excluding machine 2; machines 2 and 0 give `all`. -/
 example : [2, 2, 2].foldl sigStep none = some (.allExcept 2) := by decide
 example : [2, 0, 2].foldl sigStep none = some .all := by decide
 example : firstRound 4 (some 2) = [0, 1, 3] := by decide
+
+/-- Non-vacuity: the signalling machines of a log segment (newest first) in chronological order; a
+    transition to another state is not a signal. -/
+example : signalsIn [.sampled 2 0 STATE_SIGNAL, .trans 2 0 1, .sampled 1 3 0, .sampled 0 1 STATE_SIGNAL] = [0, 2] := by
+  decide
+example : deliveries [.trans 1 Gen.EV_Signal 0, .trans 2 Gen.EV_Signal STATE_END, .trans 1 0 0] 1 = 1 := by decide
+example : deliveries [.trans 1 Gen.EV_Signal 0, .trans 2 Gen.EV_Signal STATE_END, .trans 1 0 0] 2 = 0 := by decide
 
 end Mb.C09
